@@ -90,10 +90,7 @@ def tok_byte_start_assign(ctx):
 def tok_merge_order(ctx):
     P = ctx.lib
     b = P.fn("tokenizer::tokenize")
-    blk = T.peel(b["tree"])
-    while blk.get("k") == "blockexpr":
-        blk = blk["block"]
-    tail = T.peel(blk["tail"]) if blk.get("tail") is not None else {}
+    tail = T.returned_value(b)
     if not (tail.get("k") == "mcall" and tail["name"] == "fold" and T.render(tail["recv"]) == "tokens.into_iter()"):
         return False, "merge fold not found"
     clo = T.peel(tail["args"][1])
